@@ -52,7 +52,7 @@ def _verdict(pid, overlay):
     chk = Check(pid, "quick", 0, quiet=True)
     try:
         prog = Program(overlay=overlay)
-        mod.run(prog, chk)
+        __import__('pvf.rules', fromlist=['run_property']).run_property(pid, prog, chk)
     except AnalysisError as e:
         if not chk.violations:
             return "refused", ["%s %s" % (e.anchor, e.detail)], chk
